@@ -1,0 +1,8 @@
+//go:build verif
+
+package syntax
+
+// VerifFields exposes the Boyer-Moore prefix (build tag verif).
+func (b *BmPrefix) VerifFields() (pattern []rune, caseInsensitive, rightToLeft bool) {
+	return b.pattern, b.caseInsensitive, b.rightToLeft
+}
